@@ -656,12 +656,17 @@ def specials(rng):
     # a vector the library fills, copied into a caller array of ANOTHER extent (a section of a longer array: shorter and longer
     # than the vector): min(extent, size) elements are copied, nothing outside the argument is touched
     decls += [{"decl": "void iota_out(int n, std::vector<int> &arg +intent(out))"}]
+    # an enumeration with an explicit zero after other values, passed to the library through all three routes
+    decls += [{"decl": "enum Mode { FAST = 4, SAFE = 2, NONE = 0, AUTO }"}, {"decl": "int weight(Mode m)"}]
+    # an assumed-rank argument: one Fortran specific per rank from F_assumed_rank_min to F_assumed_rank_max, both ends included
+    decls += [{"decl": "int sumv(const int *values +dimension(..), int nvalues)", "options": {"F_assumed_rank_max": 2}}]
     decls += [{"decl": "int labelv(std::string name)"}, {"decl": "int labelv(bool flag)"}]          # the same with the string passed by value
     # a const method whose class ALSO has a non-const overload that is not wrapped: the wrapper must call through a pointer to const
     # a class instance returned BY VALUE (method and function): the wrapper keeps a heap copy whose address goes into the capsule
     mdecls = [{"decl": "int addmul(int a, int b = 2)"}, {"decl": "int peekc() const"}, {"decl": "Thing twin(int d) const"}]
     decls.append({"decl": "Thing makeThing(int v)"})
-    hpp = ["int total_length(const std::vector<std::string> &names);", "int label(const std::string &name);", "int label(bool flag);", "int labelv(std::string name);", "int labelv(bool flag);", "void iota_out(int n, std::vector<int> &arg);", "void put(int v);", "void eq_trace_put(double v, int size);",
+    hpp = ["int total_length(const std::vector<std::string> &names);", "int label(const std::string &name);", "int label(bool flag);", "int labelv(std::string name);", "int labelv(bool flag);", "enum Mode { FAST = 4, SAFE = 2, NONE = 0, AUTO };", "int weight(Mode m);",
+           "int sumv(const int *values, int nvalues);", "void iota_out(int n, std::vector<int> &arg);", "void put(int v);", "void eq_trace_put(double v, int size);",
            "template<typename T> void put(T v) { eq_trace_put((double)v, (int)sizeof(T)); }", "const std::string getlbl(int i);", "const std::string getlbl2(int i);", "void vgrow(std::vector<int> &arg, int extra);", "struct Pt { int x; double y; };",
            "int pt_cref(const Pt &p);", "void pt_scale(Pt &p, int k);", "int pt_val(Pt p);", "int pt_ptr(const Pt *p);", "double tagd(const std::string &name, double arg);",
            "int defs(int a, int b = 10, int c = 100);", "double defd(double x, double y = 0.0);",
@@ -696,6 +701,8 @@ def specials(rng):
            'void put(int v) { std::cout << "callee put ordinary(" << v << ")\\n"; }',
            'void eq_trace_put(double v, int size) { std::cout << "callee put<T> sizeof=" << size << " ("; show(v); std::cout << ")\\n"; }',
            'void iota_out(int n, std::vector<int> &arg) { std::cout << "callee iota_out(" << n << ")\\n"; arg.clear(); for (int i = 0; i < n; ++i) arg.push_back(101 + i); }',
+           'int weight(Mode m) { std::cout << "callee weight(" << (int)m << ")\\n"; return m == NONE ? 0 : m == AUTO ? 1 : m == SAFE ? 2 : m == FAST ? 4 : -1; }',
+           'int sumv(const int *values, int nvalues) { int t = 0; for (int i = 0; i < nvalues; ++i) t += values[i]; std::cout << "callee sumv(n=" << nvalues << ",sum=" << t << ")\\n"; return t; }',
            'int labelv(std::string name) { std::cout << "callee labelv(string [" << name << "])\\n"; return 200 + (int)name.size(); }',
            'int labelv(bool flag) { std::cout << "callee labelv(bool " << (flag ? 1 : 0) << ")\\n"; return flag ? 3 : 2; }',
            'int label(bool flag) { std::cout << "callee label(bool " << (flag ? 1 : 0) << ")\\n"; return flag ? 1 : 0; }',
@@ -776,6 +783,11 @@ def specials(rng):
         cdrv += ["    { int sp_buf[10]; for (int i = 0; i < 10; ++i) sp_buf[i] = -1; EQ_SHROUD_array sp_d; EQ_iota_out_bufferify(%d, &sp_d);" % nn,
                  "      EQ_ShroudCopyArray(&sp_d, sp_buf + %d, %d);" % (lo, ext),
                  "      eq_begin(\"%s\"); for (int i = 0; i < 10; ++i) eq_int(sp_buf[i]); eq_end(); }" % tag]
+    direct += dshow("weight_none", "weight(NONE)") + dshow("weight_auto", "weight(AUTO)") + dshow("weight_fast", "weight(FAST)")
+    cdrv += dshow("weight_none", "EQ_weight(EQ_NONE)") + dshow("weight_auto", "EQ_weight(EQ_AUTO)") + dshow("weight_fast", "EQ_weight(EQ_FAST)")
+    for drv, fn in ((direct, "sumv"), (cdrv, "EQ_sumv")):
+        drv += ["    { int sp_s0 = 9; int sp_s1[3] = {1, 2, 3}; int sp_s2[4] = {10, 20, 30, 40};"] + dshow("sumv0", "%s(&sp_s0, 1)" % fn) + \
+            dshow("sumv1", "%s(sp_s1, 3)" % fn) + dshow("sumv2", "%s(sp_s2, 4)" % fn) + ["    }"]
     direct += dshow("labelv_pad", "labelv(std::string(%s))" % cstr(tg))
     cdrv += dshow("labelv_pad", "EQ_labelv_0((char *)%s)" % cstr(tg))
     direct += dshow("labelv_s", "labelv(std::string(%s))" % cstr(lab)) + dshow("labelv_b", "labelv(false)")
@@ -843,6 +855,13 @@ def specials(rng):
     for tag, nn, lo, ext in (("iota_short", 5, 2, 3), ("iota_long", 2, 1, 6)):
         fbody += ["    sp_buf = -1_C_INT", "    call iota_out(%d_C_INT, sp_buf(%d:%d))" % (nn, lo + 1, lo + ext), "    call eq_begin(\"%s\"//C_NULL_CHAR)" % tag,
                   "    do sp_i = 1, 10", "        call eq_int(int(sp_buf(sp_i), C_LONG))", "    end do", "    call eq_end()"]
+    fbody += ["    sp_i = weight(none)"] + fshow("weight_none", f_show("int", "sp_i"))
+    fbody += ["    sp_i = weight(auto)"] + fshow("weight_auto", f_show("int", "sp_i"))
+    fbody += ["    sp_i = weight(fast)"] + fshow("weight_fast", f_show("int", "sp_i"))
+    fdecl += ["    integer(C_INT) :: sp_s0 = 9, sp_s1(3) = [1, 2, 3], sp_s2(2,2) = reshape([10, 20, 30, 40], [2, 2])"]
+    fbody += ["    sp_i = sumv(sp_s0, 1_C_INT)"] + fshow("sumv0", f_show("int", "sp_i"))
+    fbody += ["    sp_i = sumv(sp_s1, 3_C_INT)"] + fshow("sumv1", f_show("int", "sp_i"))
+    fbody += ["    sp_i = sumv(sp_s2, 4_C_INT)"] + fshow("sumv2", f_show("int", "sp_i"))
     fbody += ["    sp_i = labelv(sp_tg)"] + fshow("labelv_pad", f_show("int", "sp_i"))       # a blank-padded variable: trimmed on the way
     fbody += ["    sp_i = labelv(%s)" % fstr(lab)] + fshow("labelv_s", f_show("int", "sp_i"))
     fbody += ["    sp_i = labelv(.false.)"] + fshow("labelv_b", f_show("int", "sp_i"))
